@@ -75,14 +75,18 @@ def main():
                 tgt = os.path.join(wt, rel)
                 os.makedirs(os.path.dirname(tgt), exist_ok=True)
                 shutil.copy(f, tgt)
-            rc0, out0 = sh(a.demo, cwd=wt)
-            meta["ran"].append({"what": "demo on pristine tree", "rc": rc0, "tail": out0[-600:]})
+            # the pinned baseline tests run with the change but WITHOUT the demo files (a demo may disturb
+            # the test binary of the package it is copied into)
             rc, out = sh("git apply %s" % patch, cwd=wt)
             if rc != 0:
                 print("patch does not apply to its base:", out)
                 return 2
             missing = baseline_pass(wt)
             meta["ran"].append({"what": "pinned baseline tests with the change", "missing_or_failing": sorted(missing)})
+            sh("git apply -R %s" % patch, cwd=wt)
+            rc0, out0 = sh(a.demo, cwd=wt)
+            meta["ran"].append({"what": "demo on pristine tree", "rc": rc0, "tail": out0[-600:]})
+            rc, out = sh("git apply %s" % patch, cwd=wt)
             rc1, out1 = sh(a.demo, cwd=wt)
             meta["ran"].append({"what": "demo with the change", "rc": rc1, "tail": out1[-900:]})
             meta["valid"] = (rc0 == 0 and rc1 != 0 and not missing)
